@@ -130,11 +130,11 @@ func (h *c20Harness) EpochEvaluated(t *experiment.Trial, g *experiment.Generatio
 }
 
 type c20Expect struct {
-	events  []string // notifications and evaluator calls up to the end / the abort point
-	full    []string // for an aborted run: what an undisturbed run would have produced from there
-	trials  [][2][]int
-	aborted bool
-	wantErr error
+	events   []string // notifications and evaluator calls up to the end / the abort point
+	full     []string // for an aborted run: what an undisturbed run would have produced from there
+	trials   [][2][]int
+	aborted  bool
+	wantErr  error
 	lastEval string
 }
 
@@ -277,8 +277,16 @@ func c20Run(cfg c20Config, script []int) (msg string, consumed []int, events []s
 			// the library may stop slightly earlier than the reference only by omitting nothing: demand the reference prefix
 			return fmt.Sprintf("calls received before the abort: %v; protocol up to the abort: %v", got, want), consumed, events
 		}
+		// after the abort point: no further evaluation and no notification for another generation; a
+		// notification that the generation just evaluated is complete is compatible with the statement
+		lastEval := ""
+		for _, e := range want {
+			if strings.HasPrefix(e, "eval(") {
+				lastEval = "epoch(" + strings.TrimPrefix(e, "eval(")
+			}
+		}
 		for _, extra := range got[len(want):] {
-			if strings.HasPrefix(extra, "eval(") || strings.HasPrefix(extra, "epoch(") {
+			if strings.HasPrefix(extra, "eval(") || (strings.HasPrefix(extra, "epoch(") && extra != lastEval) {
 				return fmt.Sprintf("after the abort point the library still delivered %s (calls %v)", extra, got), consumed, events
 			}
 		}
